@@ -33,7 +33,7 @@ def find(prop, tier, name):
 
 def cmd_list(prop, tier):
     mod, claims = load_claims(prop, tier)
-    out = [{"name": c.name, "timeout": c.timeout, "bounds": c.bounds, "group": c.group, "inductive": c.inductive} for c in claims]
+    out = [{"name": c.name, "timeout": c.timeout, "bounds": c.bounds, "group": c.group, "inductive": c.inductive} for c in claims if not c.probe_only]
     meta = {"claims": out, "assumptions": list(getattr(mod, "ASSUMPTIONS", [])), "outside": list(getattr(mod, "OUTSIDE", []))}
     print(json.dumps(meta))
 
@@ -42,9 +42,9 @@ def known_pre(mod, c, known):
     """extra preconditions: exclude exactly the inputs characterised by known findings for this claim group"""
     extra = []
     for k in known:
-        if k.get("claim") != c.group:
+        if k.get("claim") != c.group or not k.get("match_fn"):
             continue
-        fn = getattr(mod, k["match"])
+        fn = getattr(mod, k["match_fn"])
         import inspect
 
         names = list(inspect.signature(fn).parameters)
